@@ -4,13 +4,13 @@ from fractions import Fraction as Fr
 from .common import *
 
 LEVEL_TEXT = ("Coq theorems (C10/Props.v): for ANY representation change that keeps the offered actions pairwise distinct, the re-keyed reward function (DiscreteReward(new actions, old rewards) / BinaryReward(new argmax)) gives "
-              "the i-th new action exactly the i-th old action's reward, whatever the old reward function was; the logged action stays the same member; chains stay injective; one-hot is injective; a stale (not re-keyed) reward returns 0. "
+              "the i-th new action exactly the i-th old action's reward, whatever the old reward function was; the logged action stays the same member; chains stay injective; one-hot is injective; the flat one-hot encoding of dense rows as the code computes it keeps rows of one layout distinct (flat_onehot_rows_stay_distinct); a stale (not re-keyed) reward returns 0. "
               "The extracted model predicts the new reward vector from the equality classes of the implementation's old/new actions; a before/after oracle checks rewards, feedbacks and the logged action for every filter and chain.")
 TRUSTED = ["Coq 8.16.1 kernel (coqc)", "extraction + ocaml/driver.ml", "harness/c10.py (interaction generator, type-compatible chains, before/after oracle, equality classes of actions)",
-           "modelled not verified: the encoders themselves (EncodeCatRows, pipes.Flatten, _make_sparse, _make_dense) - their injectivity on each generated action set is checked, not proved (except one-hot); crc32 hashing collisions are excluded by the oracle's precondition"]
+           "modelled not verified: the encoders themselves (EncodeCatRows, pipes.Flatten, _make_sparse, _make_dense) - their injectivity on each generated action set is checked, not proved (except one-hot and the flat one-hot form of un-nested dense rows); crc32 hashing collisions are excluded by the oracle's precondition"]
 ASSUMPTIONS = ["offered actions are pairwise distinct before the filter", "Densify(method='hashing') is only checked when the hash is injective on the keys present (collisions are a documented trade-off)", "Noise is applied to actions only (reward noise changes rewards by design)"]
 RULE = ("interactions with scalar/string/categorical/dense/nested/sparse actions, rewards as list, BinaryReward, DiscreteReward, L1Reward or an arbitrary callable, optional IGL feedbacks and logged action/reward/probability; "
-        "chains of 1-3 type-compatible filters (Repr x4x4 schemes, Flatten, Sparsify, Densify lookup/hashing, Noise(action), Batch, Finalize); non-trivial = >= 2 actions and a filter that changes the actions")
+        "chains of 1-3 type-compatible filters (Repr x4x4 schemes, Flatten, Sparsify, Densify lookup/hashing, Noise(action), Finalize); Batch(1..n) over 2-5 interactions whose dict keys come in shuffled orders; Environments shortcuts (dense/sparse/flatten/repr/batch) over 2-4 environments read in turn; non-trivial = >= 2 actions and a filter that changes the actions")
 
 def fingerprints():
     fp = fingerprint_defs('coba/environments/filters.py', ['Repr', 'Flatten', 'Sparsify', 'Densify', 'Noise', 'Batch', 'Finalize'])
